@@ -36,12 +36,14 @@ RULE = (
     "a seed corpus of valid inputs, -runs budget, -seed derived from VERIF_SEED) with this same oracle inside the target: input = the raw cEMI octets, oracle_full() (parser + both receive paths with their guards) after one parse under a sys.monitoring step budget (C12:nontermination:*); each "
     "execution counts as one evaluation, it is non-trivial by the same rule (reaches CEMILData / CEMIMPropInfo parsing, measured in the target), distinct by input hash"
 )
-FUZZ_RUNS = 150_000  # executions per campaign (thorough tier)
+FUZZ_RUNS = 100_000  # executions per campaign (thorough tier)
 ASSUMPTIONS = [
     "declared errors are exactly xknx.exceptions.CouldNotParseCEMI and UnsupportedCEMIMessage (docstring of handle_raw_cemi)",
     "the guard is observed at cemi_handler.logger.exception / device_management_connection.logger.exception; "
     "CEMIHandler.handle_cemi_frame is replaced by a recorder so that only the parse stage is judged here (later stages: C14/C18/C43)",
-    "termination is implied by the run finishing: the parser has no loops over input besides slicing (no step budget is enforced)",
+    "termination is implied by the run finishing: the parser has no loops over input besides slicing (no step budget is enforced "
+    "in the enumerations / Hypothesis runs); the thorough-tier atheris campaigns and replay() parse once under a sys.monitoring "
+    "step budget of 20000 + 400*len (terminates(); generated frames need < 300 steps) before the unbudgeted oracle",
 ]
 LEVEL_TEXT = "no input in the enumerated / generated space makes the cEMI parser raise an undeclared exception or reach a last-resort guard"
 LEVEL_NOTE = "exhaustive up to 2 (3) octets; beyond that sampling only; trusted: Hypothesis generators cover the layout classes listed in RULE"
@@ -154,6 +156,27 @@ def check_handler(ctx, rec: _Recorder, raw: bytes, kind: str) -> None:
         ctx.fail(f"C12:guard-taken:device_management:{exc_site(e) if e else '?'}", raw, f"last-resort guard of _cemi_received: taken={bool(rec.guard)} {type(e).__name__}: {e}; direct parse result was {kind}")
 
 
+# Step budget of the parse stage (vk/budget.py, sys.monitoring events in xknx code; valid and generated frames
+# need < 300).  Only the atheris campaigns and replay() use it - the enumerations and Hypothesis runs end by themselves.
+A_STEPS, B_STEPS = 20_000, 400
+
+
+def terminates(ctx, raw: bytes) -> bool:
+    """One parse under the step budget; a non-terminating parse is recorded (and must not be run unbudgeted)."""
+    from vk.budget import StepBudget, StepBudgetExceeded
+
+    limit = A_STEPS + B_STEPS * len(raw)
+    try:
+        with StepBudget(limit):
+            CEMIFrame.from_knx(raw)
+    except StepBudgetExceeded as e:
+        ctx.fail(f"C12:nontermination:{e.site}", raw, f"step budget {limit} exhausted parsing {len(raw)} octets in {e.site}")
+        return False
+    except Exception:  # noqa: BLE001 - judged by parse_only()
+        pass
+    return True
+
+
 def oracle_full(ctx, raw: bytes, rec: _Recorder | None = None) -> None:
     kind, val = parse_only(ctx, raw)
     reached = nontrivial(raw)
@@ -239,4 +262,5 @@ def run(ctx) -> None:
 
 def replay(ctx, case) -> None:
     raw = case if isinstance(case, (bytes, bytearray)) else case.get("raw", b"")
-    oracle_full(ctx, bytes(raw))
+    if terminates(ctx, bytes(raw)):
+        oracle_full(ctx, bytes(raw))
